@@ -405,4 +405,7 @@ func init() {
 	addMutant(Mutant{"C19-remove-files-under-fee-granter", "C19", "app/mempool/priority_nonce.go",
 		"sender := sdk.AccAddress(sig.PubKey.Address()).String()\n\tnonce := sig.Sequence\n\n\tscoreKey", "sender := sdk.AccAddress(tx.(sdk.FeeTx).FeeGranter()).String()\n\tnonce := sig.Sequence\n\n\tscoreKey",
 		"a transaction is filed under its first signer"})
+	addMutant(Mutant{"C14-valset-gate-on-second-update", "C14", "x/consensus/keeper/filters/pending_valset_filter.go",
+		"return msg.GetId() <= pendingValsetUpdates[0].GetId()", "return msg.GetId() <= pendingValsetUpdates[len(pendingValsetUpdates)/2].GetId()",
+		"compares with the oldest pending update"})
 }
